@@ -34,6 +34,30 @@ func verifFinalize(p *Pipeline, e *Event, notifyInput, backEvent bool) {
 	}
 }
 
+// ---- stream commit observer ----
+
+var (
+	verifCommitMu  sync.RWMutex
+	verifCommitObs func(p *Pipeline, sourceID uint64, stream string, eventSeq, commitSeq uint64)
+)
+
+// VerifSetStreamCommitObserver installs a callback invoked right after
+// stream.commit in Pipeline.finalize with the stream's commitSeq as it is then.
+func VerifSetStreamCommitObserver(fn func(p *Pipeline, sourceID uint64, stream string, eventSeq, commitSeq uint64)) {
+	verifCommitMu.Lock()
+	verifCommitObs = fn
+	verifCommitMu.Unlock()
+}
+
+func verifAfterStreamCommit(p *Pipeline, e *Event) {
+	verifCommitMu.RLock()
+	fn := verifCommitObs
+	verifCommitMu.RUnlock()
+	if fn != nil && e.stream != nil {
+		fn(p, uint64(e.stream.streamID), string(e.stream.name), e.SeqID, e.stream.commitSeq.Load())
+	}
+}
+
 // ---- event pools ----
 
 // VerifPool is a standalone event pool of either kind.
